@@ -88,7 +88,9 @@ using sim::Verdict;
    X(set_decl_fields) X(set_stmt_fields) X(set_loop_fields) X(set_expr_fields) X(set_udt_fields) X(set_form_fields) X(set_directive_fields) \
    X(set_callable_fields) X(set_unit_fields) \
    /* noise */ \
-   X(noise_alloc) X(noise_free)
+   X(noise_alloc) X(noise_free) \
+   /* appended later: a word beyond the pool boundaries, and macro operations that build complete, printable constructs */ \
+   X(get_string_huge) X(macro_var) X(macro_function) X(macro_class) X(macro_template) X(macro_stmt_tree)
 
 enum OpCode : int {
 #define X(fn, K) OP_##fn,
@@ -112,6 +114,7 @@ struct Rec {
    Reading exp;                 // expected reading (from inputs only)
    ObserveFn observe = nullptr;
    uint32_t born = 0;           // step at which the object was first returned
+   uint64_t seq = 0;            // birth order among all modelled objects (strictly increasing, also within one step)
    int maker = -1;              // opcode that first produced it
    bool generative = false;     // produced by a make_ constructor that must yield a distinct node every time
    int owner_unit = -1;         // dies with this unit (index), -1: lives as long as the Lexicon
@@ -307,7 +310,8 @@ struct World {
    std::set<Ref> body_printers;                                    // declarations whose initializer prints a body
    std::map<Ref, std::vector<Ref>> template_mapping;               // mapping -> templates initialised with it
    static bool is_udt_category(int cat);
-   bool can_seal_as_body(const ipr::Type& udt, uint32_t user_born);
+   bool can_seal_as_body(const ipr::Type& udt, uint64_t user_seq);
+   uint64_t next_seq = 0;
    bool region_sealed(const ipr::Region& r);                        // r is the body (or inside the body) of a sealed type
    Ref this_name = nullptr;                                        // the Identifier naming `this`, learnt from the first get_this
    std::vector<void*> noise_blocks;
@@ -373,7 +377,7 @@ struct World {
       if (b == recs.end()) return false;
       auto a = recs.find(x);
       if (a == recs.end()) return true;          // unmodelled: a built-in constant or an internal node, cannot point back
-      return a->second.born < b->second.born;
+      return a->second.seq < b->second.seq;
    }
    // an expression older than `than` (falls back to the constant `true`)
    const ipr::Expr& Eo(int64_t sel, Ref than)
@@ -416,6 +420,8 @@ struct World {
    Ref apply_exprs(const Op&);
    Ref apply_stmts_decls(const Op&);
    Ref apply_forms_misc(const Op&);
+   Ref apply_macros(const Op&);
+   Ref add_parameter(impl::Parameter_list* pl, impl::Mapping* mp, const ipr::Name& nm, const ipr::Type& t);
 };
 
 inline Reading observe_node_fn(Ref r, const ObsOptions& o) { return observe(*static_cast<const ipr::Node*>(r), o); }
